@@ -102,7 +102,7 @@ def oracle (via target : String) (rows cols spp bits frames : Nat) (attr : Bool)
     if f.ts ≠ eleUid then some s!"class=not-explicit-le {via} target={target} ts={f.ts}" else
     let n := if swapped then data.length else data0.length
     let extra := f.px.drop n
-    if f.px.take n ≠ data ∨ !(extra = [] ∨ (n % 2 = 1 ∧ extra = [0])) then
+    if f.px.take n ≠ data ∨ !(extra = [] ∨ (via == "file" ∧ n % 2 = 1 ∧ extra = [0])) then
       some s!"class=pixel-data-differs {via} target={target} want={hexOf data} got={hexOf f.px}" else
     if f.rows ≠ some rows ∨ f.cols ≠ some cols ∨ f.spp ≠ some spp ∨ f.bits ≠ some bits then
       some s!"class=attrs-changed {via} target={target}" else
@@ -174,6 +174,39 @@ def handle (line : String) : String :=
               | _, _ => "MODEL-DIFF unreachable"
         | _ => "BAD-LINE"
       | _ => "BAD-LINE"
+    | _, _, _, _, _, _, _ => "BAD-LINE"
+  | "dec" :: uid :: rows :: cols :: spp :: bits :: frames :: attr :: withTable :: data :: "=>" :: rest =>
+    match rows.toNat?, cols.toNat?, spp.toNat?, bits.toNat?, frames.toNat?, attr.toNat?, unhex data with
+    | some rows, some cols, some spp, some bits, some frames, some attr, some data =>
+      let target := uidName uid
+      let attrB := attr = 1
+      let res : Option Res := match rest with
+        | ["err"] => some (.fail "err")
+        | ["panic"] => some (.fail "panic")
+        | _ => match parseRes ("nat" :: "0" :: rest) with
+          | some (r, []) => some r
+          | _ => none
+      match res with
+      | none => "BAD-LINE"
+      | some r =>
+        match oracle "mem" s!"from-{target}" rows cols spp bits frames attrB data false r with
+        | some e => s!"PROP-FAIL {e}"
+        | none =>
+          -- the model decodes its own encoding of the same frames
+          let fsz := rows * cols * spp * (bits / 8)
+          let a : Adapter := if target == "uncompressed" then .uncompressed else .perFragment prefEnc prefDec
+          let frs := (List.range frames).map fun f => padEven ((match a with
+            | .uncompressed => id
+            | .perFragment e _ => e) ((data.drop (fsz * f)).take fsz))
+          let table := if withTable == "1" then prefixOffsets 0 (frs.map fun f => [f]) else []
+          let o : Obj := ⟨⟨uidNum uid, .encapsulated a true true⟩, rows, cols, spp, bits,
+            if attrB then some frames else none, .encap table frs, none⟩
+          match transcode o ⟨1, .native⟩ ⟨1, .native⟩, r with
+          | some o2, .ok _ f =>
+            if o2.pixel ≠ .native f.px then s!"MODEL-DIFF dec {target} pixel data impl={hexOf f.px}" else
+            if o2.nframes ≠ f.nf then s!"MODEL-DIFF dec {target} NumberOfFrames" else
+            s!"ok dec-{target}-b{bits}-s{spp}-f{cntClass frames}-{if fsz % 2 = 1 then "oddframe" else "evenframe"}-attr{attr}-table{withTable}"
+          | _, _ => s!"MODEL-DIFF dec {target} model fails"
     | _, _, _, _, _, _, _ => "BAD-LINE"
   | _ => "BAD-LINE"
 
